@@ -23,6 +23,35 @@ type shape struct {
 	SelfEnds bool
 	// Tickers: goroutines of the shape itself that tick concurrently (for the progress bound)
 	Tickers int
+	// Exec: the shape waits in exec(...) for a child process. The cancellation instant is a delay after
+	// parked() long enough for the child to be running; what the run must do is return promptly WITH AN
+	// ERROR (the killed child's own error does not wrap the context's, on the unchanged tree either).
+	Exec bool
+}
+
+// Children that a cancelled evaluation has to get rid of: an ordinary one, ones that ignore SIGTERM
+// (with and without the shell staying their parent), one that ignores SIGTERM, SIGINT and SIGHUP. They
+// sleep 25 s: longer than the doubled watchdog of a confirmation run, short enough that a leftover ends
+// by itself.
+const (
+	childPlain   = `exec("sleep", ["25"])`
+	childNoTerm  = `exec("sh", ["-c", "trap '' TERM; exec sleep 25"])`
+	childNoTerm2 = `exec("sh", ["-c", "trap '' TERM; sleep 25; true"])`
+	childNoSigs  = `exec("sh", ["-c", "trap '' TERM INT HUP; exec sleep 25"])`
+	childCommand = `exec.command("sh", "-c", "trap '' TERM; exec sleep 25").run()`
+)
+
+// execShapes are kept apart from the general catalogue: they run at top level only (default cancel and
+// deadline contexts), because each of them starts a real process.
+var execShapes = []shape{
+	{Name: "exec-sleep", Kind: "park", Exec: true, CanExit: true, Body: "parked()\n" + childPlain},
+	{Name: "exec-child-ignores-sigterm", Kind: "park", Exec: true, CanExit: true, Body: "parked()\n" + childNoTerm},
+	{Name: "exec-sh-child-ignores-sigterm", Kind: "park", Exec: true, CanExit: true, Body: "parked()\n" + childNoTerm2},
+	{Name: "exec-child-ignores-term-int-hup", Kind: "park", Exec: true, CanExit: true, Body: "parked()\n" + childNoSigs},
+	{Name: "exec.command-run-child-ignores-sigterm", Kind: "park", Exec: true, CanExit: true, Body: "parked()\n" + childCommand},
+	{Name: "cb-map-exec-child-ignores-sigterm", Kind: "park", Exec: true, CanExit: true, Body: "[1].map(func(x) { parked()\n" + childNoTerm + " })"},
+	{Name: "cb-try-exec-child-ignores-sigterm", Kind: "park", Exec: true, CanExit: true, Body: "try(func() { parked()\n" + childNoTerm + " })"},
+	{Name: "defer-exec-child-ignores-sigterm", Kind: "park", Exec: true, CanExit: true, Body: "func work() { defer func() { parked()\n" + childNoTerm + " }()\nreturn 1 }\nwork()"},
 }
 
 const dloopDecl = "func dloop() { for { tick() } }\n"
@@ -99,6 +128,11 @@ func shapeByName(n string) *shape {
 	for i := range shapes {
 		if shapes[i].Name == n {
 			return &shapes[i]
+		}
+	}
+	for i := range execShapes {
+		if execShapes[i].Name == n {
+			return &execShapes[i]
 		}
 	}
 	return nil
